@@ -25,6 +25,8 @@ def splitAt (ws : List String) (sep : String) : List String × List String :=
 
 def parseEv : List String → Option Ev
   | ["connect", "connack", sp, code] => do pure (.connect (.connack (← Broker.parseBool sp) (← code.toNat?)))
+  -- the same answer sent in two TCP segments
+  | ["connect", "connacks", sp, code] => do pure (.connect (.connack (← Broker.parseBool sp) (← code.toNat?)))
   | ["connect", "bad"] => some (.connect .badConnack)
   | ["connect", "other"] => some (.connect .other)
   | ["connect", "close"] => some (.connect .close)
